@@ -388,6 +388,65 @@ def _hz_point(rate):
 # ---------------------------------------------------------------- sub-checks
 
 
+# ---------------------------------------------------------------- window call histories
+
+
+WH_WIDTHS = (7, 8, 64)
+
+
+def _window_history(pt):
+    """sequences of get_impulse_response calls on one window object and on a second object of the same
+    configuration; the caller SCRIBBLES over every array it has been given (in-place renormalisation
+    is ordinary use) before the next call.  Every result, at the moment it is returned, must equal what
+    a never-used object returns, and two results must not share memory."""
+    cfg, seq = pt
+    objs = {"A": _make_window(cfg), "B": _make_window(cfg)}
+    given = []
+    viol = []
+    case = dict(kind="window_history", cfg=cfg, seq=seq)
+    # reference values are taken (and copied) BEFORE anything is scribbled on, so that a cache shared
+    # between objects cannot pollute the oracle as well
+    ref0 = {}
+    for width in sorted(set(w for _, w in seq)):
+        rr = computers.call(_make_window(cfg).get_impulse_response, width)
+        ref0[width] = (rr[0], np.array(rr[1], copy=True)) if rr[0] == "ok" else rr
+    for step, (who, width) in enumerate(seq):
+        r = computers.call(objs[who].get_impulse_response, width)
+        ref = ref0[width]
+        if r[0] != "ok" or ref[0] != "ok":
+            if r[:2] != ref[:2]:
+                viol.append(core.violation(dict(what="window_history", window=cfg["cls"], aspect="exception"),
+                                           "%r step %d: %s vs fresh %s" % (seq, step, r[1:], ref[1:]), case))
+            break
+        if r[1].shape != ref[1].shape or r[1].tobytes() != ref[1].tobytes():
+            viol.append(core.violation(
+                dict(what="window_history", window=cfg["cls"], aspect="stale_or_shared",
+                     same_object=bool(any(w == who for w, _ in seq[:step])),
+                     same_width=bool(any(x == width for _, x in seq[:step]))),
+                "%s: calls %r, the caller having overwritten each earlier result in place: call #%d "
+                "(width %d on object %s) differs from a never-used object" % (cfg, seq, step, width, who), case))
+            break
+        for g in given:
+            if r[1].size and np.shares_memory(r[1], g):
+                viol.append(core.violation(dict(what="window_history", window=cfg["cls"], aspect="alias"),
+                                           "%r: result #%d shares memory with an earlier result" % (seq, step), case))
+                break
+        given.append(r[1])
+        if r[1].flags.writeable:
+            r[1][...] = np.nan
+    return core.result(viol, obs=[cfg["cls"], len(viol) == 0], sample=case)
+
+
+def _window_history_points(tier):
+    import itertools
+
+    calls = [(w, n) for w in ("A", "B") for n in WH_WIDTHS[:2 if tier == "quick" else 3]]
+    depth = 3 if tier == "quick" else 4
+    cfgs = [dict(cls=c) for c in NUMPY_WINDOWS] + [dict(cls="GammaWindow", order=4, peak=0.75),
+                                                  dict(cls="GammaWindow", order=1, peak=0.75)]
+    return [(cfg, [list(c) for c in seq]) for cfg in cfgs for seq in itertools.product(calls, repeat=depth)]
+
+
 def subchecks(tier, seed):
     wmax = 4096 if tier == "quick" else 12288
     wchunk = 128
@@ -411,6 +470,12 @@ def subchecks(tier, seed):
             "and int(peak*width) in {argmax, argmax+1}; widths 0/1 give [] / [1] for gamma; "
             "non-trivial = width >= 2" % wmax,
             axes=dict(window=_window_cfgs(tier), width=[0, wmax]), replay=_window_replay),
+        core.SubCheck(
+            "window_histories", _window_history_points(tier), _window_history,
+            "every sequence of 3 (thorough 4) get_impulse_response calls over {object A, object B} x widths "
+            "%r for every window class, the caller overwriting each returned array in place before the next "
+            "call: each result equals a never-used object's, no two results share memory" % (WH_WIDTHS,),
+            replay=lambda c: _window_history((c["cfg"], c["seq"])), kind="explore"),
         core.SubCheck(
             "circshift", cs_explicit, lambda p: _cs_point(p, seed),
             "explicit dft_size D 1..%d x segment length 1..D (points) x start_idx 0..D-1 x dtype x every "
